@@ -13,7 +13,9 @@
     * `discardEdges`            — `QueryRevisions::discard_edges_if_never_change`,
     * `deepEdges` returns the OR of the `Unchanged { accumulated }` answers and the deep-verify
       step stores it (`old_revisions.accumulated_inputs.store(inputs)`),
-    * `accumulatedBy`           — `IngredientImpl::accumulated_by`.
+    * `accumulatedBy`           — `IngredientImpl::accumulated_by` (search by structural recursion on the
+                                  call rank); `accLoop` / `accumulatedByStack` — the same with the explicit
+                                  stack of accumulated.rs and fuel (proved equal in Proofs/CoreAccStack.lean).
 
   One accumulator type.  Single thread, acyclic programs.  Durabilities are plain `Nat`: 0 = LOW,
   1 = MEDIUM, 2 = HIGH, 3 (and above) = NEVER_CHANGE.  Revisions are plain `Nat`, `R1 = 1`.
